@@ -23,8 +23,9 @@ def close(a: Fraction, b: Fraction, floaty: bool, tol: Fraction = Fraction(1, 10
     contributes an absolute error of about 1e-15 * inter, which cancellation leaves in a small result"""
     if a == b:
         return True
-    if not floaty and max(abs(a), abs(b)) < 10**14:
-        return False   # (numbers beyond 15 digits are rounded by bartiq's numeric folding even when integral)
+    if not floaty and max(abs(a), abs(b)) < 10**12:
+        return False   # (larger numbers are rounded by bartiq's numeric folding to about 15 digits even when the result is printed
+        #                as an integer: 1508529953308672/27 = 55871479752172.296 is folded to the integer 55871479752173)
     inter = max(inter, getattr(a, "inter", 0), getattr(b, "inter", 0))
     scale = max(abs(a), abs(b), Fraction(1, 10**300), inter if floaty else Fraction(0))
     return abs(a - b) <= scale * tol
